@@ -206,7 +206,8 @@ Definition justified (recursive : bool) (root : bytes) (ops : list oprec) (e : n
     existsb (fun o =>
       match o_op o with
       | Chmod p => beqb p src
-      | Rename p q => beqb (dirname p) src || beqb (dirname q) src
+      | Rename p q => beqb (dirname p) src || beqb (dirname q) src ||
+                      (beqb q src && o_replaced o && o_replaced_dir o)   (* the replaced directory: its IN_ATTRIB *)
       | other => beqb (dirname (op_p other)) src
       end) ops
   | _, _ =>
